@@ -271,3 +271,69 @@ benign('B-publish-basic-for-beneficiary', ['C01'], [
     (I, "            if !self.beneficiary.matches(*address) &&\n                (code_changed ||", "            if (code_changed ||"),
     (I, "                        basic.nonce != info.nonce || basic.balance != info.balance\n                    }))\n            {", "                        basic.nonce != info.nonce || basic.balance != info.balance\n                    })) && true\n            {"),
 ])
+
+OC = 'src/scheduler/ordered_commit.rs'
+FB = 'src/scheduler/fallback.rs'
+mutant('E1-head-test-after-attempt', ['C04'], [
+    (S, "                    if started_at_commit_head {", "                    if self.scheduler_ctx.committed_idx() == txid {"),
+], ['|E1|'])
+mutant('S1-committer-built-with-true', ['C03'], [
+    (S, "                commit_state,\n                self.cfg.disable_nonce_check,", "                commit_state,\n                true,"),
+], ['|S1|'])
+mutant('S1-workers-keep-nonce-check', ['C03'], [
+    (S, "                        cfg.disable_nonce_check = true;\n", ""),
+], ['|S1|'])
+mutant('S2-less-treated-as-equal', ['C03'], [
+    (OC, "                        Ordering::Less => {\n                            // See the nonce-too-high branch above: fallback owns the final outcome.\n                            return Ok(CommitOutcome::NeedsSequentialFallback);\n                        }\n", ""),
+], ['|S2|'])
+mutant('S2-absent-account-nonce-one', ['C03'], [
+    (OC, "let expect = info.map_or(0, |info| info.nonce);", "let expect = info.map_or(1, |info| info.nonce);"),
+], ['|S2|'])
+mutant('S3-fallback-outcome-publishes', ['C03'], [
+    (S, "                    Ok(CommitOutcome::NeedsSequentialFallback) => {", "                    Ok(CommitOutcome::NeedsSequentialFallback) => {\n                        self.scheduler_ctx.publish_commit(commit_idx + 1);"),
+], ['|S3|', '|N10|'])
+mutant('S4-transaction-error-is-fatal', ['C03', 'C04'], [
+    (S, "                        if invalid_transaction {\n                            self.abort(AbortReason::FallbackSequential);\n                        } else {\n                            self.abort(AbortReason::FatalEvmError(txid));\n                        }", "                        self.abort(AbortReason::FatalEvmError(txid));"),
+], ['|S4|'])
+mutant('S4-error-aborts-without-head-test', ['C03', 'C04'], [
+    (S, "                    if started_at_commit_head {\n                        if invalid_transaction {", "                    if true {\n                        if invalid_transaction {"),
+], ['|S4|', '|E1|'])
+mutant('S5-skipped-on-non-transaction-error', ['C03', 'C04'], [
+    (FB, "                Err(error) => {\n                    return SequentialReplayOutput {\n                        outcomes,\n                        error: Some(GrevmError { txid, error }),\n                    };\n                }", "                Err(error) => {\n                    let _ = error;\n                    TxExecutionOutcome::Skipped(InvalidTransaction::NonceOverflowInTransaction)\n                }"),
+], ['|S5|'])
+mutant('S5-commit-on-err-in-fallback', ['C03'], [
+    (FB, "                let state = evm.finalize();\n                output.map(|output| {\n                    let result = output.into_immediate_result();\n                    evm.db_mut().commit(state);\n                    result\n                })", "                let state = evm.finalize();\n                evm.db_mut().commit(state);\n                output.map(|output| output.into_immediate_result())"),
+], ['|S5|'])
+mutant('S6-overflow-ignores-state-nonce', ['C03'], [
+    (FB, "        tx.nonce == u64::MAX &&\n        db.basic_ref(tx.caller)?.map_or(0, |info| info.nonce) == u64::MAX\n", "        tx.nonce == u64::MAX\n"),
+], ['|S6|'])
+mutant('E2-fatal-mapped-to-replay', ['C04', 'C03'], [
+    ('src/scheduler/control.rs', "                    if let Some(error) = error {\n                        return Err(GrevmError { txid: *txid, error });\n                    }\n", ""),
+], ['|E2|'])
+mutant('E2-commit-error-replayed', ['C04'], [
+    ('src/scheduler/control.rs', "Some(AbortReason::CommitError(error)) => return Err(error.clone()),", "Some(AbortReason::CommitError(_)) => return self.replay_uncommitted_suffix(committed),"),
+], ['|E2|'])
+mutant('E4-replay-drops-prefix-on-error', ['C04'], [
+    (FB, "        self.results.lock().extend(outcomes);\n        error.map_or(Ok(()), Err)", "        if let Some(error) = error {\n            return Err(error);\n        }\n        self.results.lock().extend(outcomes);\n        Ok(())"),
+], ['|E4|'])
+mutant('E4-commit-loop-error-exit-drops-output', ['C04'], [
+    (S, "                        return CommitLoopResult { committed: output, error: Some(error) };", "                        return CommitLoopResult { committed: OrderedCommitOutput::with_capacity(0), error: Some(error) };"),
+], ['|E4|'])
+mutant('E5-fallback-error-reports-rebased-index', ['C04'], [
+    (FB, "                        error: Some(GrevmError { txid, error }),", "                        error: Some(GrevmError { txid: txid - start, error }),"),
+], ['|S5|'])
+mutant('N11-push-without-state-commit', ['C02'], [
+    (OC, "        self.state.commit(state);\n        Ok(CommitOutcome::Committed(output.push(result)))", "        let _ = state;\n        Ok(CommitOutcome::Committed(output.push(result)))"),
+], ['|N11|'])
+mutant('B4-drop-mark-touch', ['C02'], [
+    (OC, "            account.mark_touch();\n", ""),
+], ['|B4|'])
+mutant('L3-commit-loop-early-return-without-abort', ['C02'], [
+    (S, "                        self.abort(AbortReason::FallbackSequential);\n                        return CommitLoopResult", "                        return CommitLoopResult"),
+], ['|L3|', '|S3|'])
+benign('B-commit-push-before-state-commit', ['C02', 'C03'], [
+    (OC, "        self.state.commit(state);\n        Ok(CommitOutcome::Committed(output.push(result)))", "        let end = output.push(result);\n        self.state.commit(state);\n        Ok(CommitOutcome::Committed(end))"),
+])
+benign('B-delete-install-asserts', ['C02', 'C04'], [
+    (S, "        assert!(results.is_empty(), \"ordered commit outcomes may only be installed once\");\n", ""),
+])
